@@ -5,6 +5,24 @@ ROOT = os.path.dirname(os.path.dirname(os.path.abspath(__file__)))
 
 # id -> (level category, technique, level text, level note, design ref)
 BUILT = {
+ "C10": ("exploration", "proptest SQL histories applied to an indexed database and its index-free twin (differential), queries compared after every statement",
+         "One generated history (any key order, wide keys, deletes, updates of indexed columns, rollbacks, CREATE/DROP INDEX mid-history) runs on a database with PRIMARY KEY/UNIQUE/secondary/composite indexes and on a twin without any; point, range, IN, prefix, IS NULL, ORDER BY+LIMIT queries on indexed columns, the full scan and COUNT(*) must agree after every statement; EXPLAIN is sampled to confirm index plans are used.",
+         "A statement runs on the twin only if the indexed database accepted it. Inherits the shared DML/rollback/DDL gates (listed findings) so that a divergence can only be something unlisted.", "4 C10"),
+ "C34": ("exploration", "proptest release/allocate/drain/reopen histories vs an ownership model of pages",
+         "Generated freelist histories over a sparse in-memory storage, from 1..8 pages up to 13000 pages crossing 2-3 trunk pages; every allocated page must have been released and not be allocated, no page is handed out twice, and free_count equals what a drain actually returns.",
+         "The storage is an in-memory implementation of the Storage trait with a real TableFileHeader on page 0.", "4 C34"),
+ "C24": ("exploration", "proptest vector pairs vs the f64 scalar definition with a derived rounding bound; SQL ORDER BY <->/<=> validity predicate",
+         "Every public distance kernel (and the AVX2 kernels directly) on generated pairs for all dimensions 1..70 (plus 127/128/129/1024 in thorough); SQL tables of 1..200 vectors ordered by L2 / cosine distance with and without LIMIT must be non-decreasing in exact distance and return the k nearest.",
+         "Tolerance = (n+4)*eps_f32*sum|term| (+ subnormal slack), the bound for sequential f32 summation; cosine with a zero vector is gated in SQL (it hits the general ORDER-BY-with-NULL defect).", "4 C24"),
+ "C25": ("exploration", "proptest insert/delete/vacuum/reopen/search histories on PersistentHnswIndex vs a map of live vectors",
+         "Generated histories (dims 2..8, m 2..16, harness-chosen levels, deletion of the entry point, re-insert, vacuum, sync+reopen); each search must return <= k distinct live row ids sorted by true distance, non-empty when a live vector exists, exact top-k when live <= ef, identical before and after reopen; SQ8 decode within one quantisation step.",
+         "Level-choice randomness is supplied by the harness. While the listed finding (back-links dropped once a neighbour list is full) is open, exact-recall is not asserted on indexes that have had more than 33 inserts.", "4 C25"),
+ "C12": ("exploration", "proptest SQL histories; invariant over the history (every generated id exceeds every value the column ever held)",
+         "Generated histories on AUTO_INCREMENT tables with omitted/NULL ids, explicit ids above and below the counter, deletes of the maximum, TRUNCATE, ROLLBACK / ROLLBACK TO, checkpoint and reopen; each generated id must be greater than every id observed earlier (committed or rolled back) and ids of one statement distinct.",
+         "Generated ids are identified by differencing the table before and after the INSERT; statements mixing explicit and generated ids only move the counter (their defect is listed under C04).", "4 C12"),
+ "C21": ("exploration", "proptest DDL+DML histories with reopen vs a relational reference model",
+         "Generated CREATE/DROP TABLE, CREATE/DROP INDEX, TRUNCATE, ALTER TABLE ADD/DROP/RENAME COLUMN interleaved with DML and reopen; the model predicts column sets, rows, index-probe answers and affected counts after every statement.",
+         "ADD COLUMN with DEFAULT on populated tables and DROP of key/indexed columns are not generated. Listed findings gate ALTER on populated / indexed tables, which leaves DDL on fresh tables, index create/drop with backfill, and table create/drop in the generated search.", "4 C21"),
  "C41": ("exploration", "exhaustive enumeration of all 3,652,059 dates of years 1..9999 + proptest SQL batches vs an enumerated calendar oracle",
          "Every date goes through the literal parser, every internal converter (via the H2 hook) and the renderer with parse-back; all 86,400 seconds on boundary dates through TIME/TIMESTAMP parsing; invalid field combinations must be rejected; generated whole years go through SQL CAST / date functions / INSERT+SELECT / DEFAULT literals.",
          "Oracle = day-by-day enumeration of the proleptic Gregorian calendar, cross-checked at start-up against a closed-form formula; converters are compared up to their own fixed epoch offset. Needs hook H2 (verif_api::calendar).", "4 C41"),
